@@ -223,10 +223,16 @@ class TruncationAndFoldingMixin:  # pylint: disable=too-few-public-methods
         return value
 
     def _fold(self, value):
-        if value < self.lower:
-            return self._fold(2 * self.lower - value)
-        if value > self.upper:
-            return self._fold(2 * self.upper - value)
+        if self.lower == self.upper:
+            return self.lower
+
+        width = self.upper - self.lower
+        if value < self.lower - 2 * width or value > self.upper + 2 * width:
+            # Folding is periodic with period 2 * width: skip whole periods instead of reflecting once per width
+            value = self.lower + (value - self.lower) % (2 * width)
+
+        while value < self.lower or value > self.upper:
+            value = 2 * self.lower - value if value < self.lower else 2 * self.upper - value
 
         return value
 
